@@ -104,6 +104,13 @@ def _menu():
     m['paths_bottleneck'] = lambda: (tpt.paths, ([0], [3], flux()), {'remove_path': 'bottleneck', 'num_paths': 2})
     m['synthetic_ensemble'] = lambda: (synthetic_data.synthetic_ensemble, (T(), np.array([1.0, 0, 0]), 4), {})
     m['assign_to_nearest_center'] = lambda: (cu.assign_to_nearest_center, (X(), [X()[0], X()[3]], libdist.euclidean), {})
+    # a frame with a missing value: its distance to every center is NaN, so no comparison ever selects a center for it -
+    # the label it gets must still come from the arguments, not from what the allocator hands out
+    def Xnan():
+        x = X()
+        x[2, 1] = np.nan
+        return x
+    m['assign_to_nearest_center_nan_frame'] = lambda: (cu.assign_to_nearest_center, (Xnan(), [X()[0], X()[3]], libdist.euclidean), {})
     m['find_cluster_centers'] = lambda: (cu.find_cluster_centers, (np.array([0, 1, 0, 1, 1]), np.array([0.5, 0.0, 0.25, 2.0, 0.0])), {})
     m['kcenters'] = lambda: (kc.kcenters, (X(), 'euclidean'), {'n_clusters': 3})
     m['kcenters_radius_tri'] = lambda: (kc.kcenters, (X(), 'manhattan'), {'dist_cutoff': 4.0, 'use_triangle_inequality': True})
@@ -523,7 +530,7 @@ MENU_NAMES = ['euclidean_wide', 'kcenters_wide', 'mi_to_nmi', 'mi_to_apc', 'mi_t
               'builder_normalize_csr_prior', 'builder_transpose', 'builder_transpose_csr_prior', 'builder_mle',
               'builder_mle_csr_prior', 'assigns_to_counts', 'trim_disconnected', 'eigenspectrum', 'eq_probs_csr', 'committors',
               'committors_csr', 'mfpts_all', 'mfpts_sink', 'reactive_fluxes', 'net_fluxes_csr', 'reactive_populations', 'top_path',
-              'paths', 'paths_bottleneck', 'synthetic_ensemble', 'assign_to_nearest_center', 'find_cluster_centers', 'kcenters',
+              'paths', 'paths_bottleneck', 'synthetic_ensemble', 'assign_to_nearest_center', 'assign_to_nearest_center_nan_frame', 'find_cluster_centers', 'kcenters',
               'kcenters_radius_tri', 'kmedoids', 'hybrid', 'euclidean', 'manhattan_f', 'hamming', 'ra_add', 'ra_lt_scalar',
               'ra_getitem_2d', 'ra_where', 'rotamers', 'transitions', 'ra_save_load', 'load_as_concatenated']
 
